@@ -24,6 +24,7 @@ import EinxModel.Driver.Shorthand
 import EinxModel.Driver.Reject
 import EinxModel.Driver.OptDag
 import EinxModel.Driver.Lower
+import EinxModel.Driver.Xlate
 /-! Line-protocol driver: one JSON request per input line, one JSON answer per output line. -/
 open Lean Einx.Driver
 
@@ -54,6 +55,7 @@ def dispatch (j : Json) : R Json := do
   | "reject_spec" | "elab_rules" => Einx.Driver.Reject.handle j
   | "optdag" => Einx.Driver.OptDag.handle j
   | "lower_model" => Einx.Driver.Lower.handle j
+  | "xlate_stb" | "xlate_diag" | "xlate_ids" | "xlate_unravel" | "py_prelude" => Einx.Driver.Xlate.handle j
   | "update_denote" | "update_lower" | "update_get" | "update_addr" | "np_put" | "np_ufunc_at" | "assignments" =>
     Einx.Driver.Update.handle j
   | k => throw s!"unknown kind {k}"
